@@ -161,6 +161,15 @@ def gen(rng, ctx):
         ops.append({"op": "strip_blackboxes", "ignore_pins": ign})
         if isinstance(ign, list) and rng.random() < 0.5:
             ops[-1]["ign_rep"] = rng.choice(["tuple", "set", "frozenset"])
+    if rng.random() < 0.05 and not any(o["op"] in ("add_blackbox", "fill_blackbox") and o.get("name", "").startswith("zu") for o in ops):
+        # two instances whose pins flatten to the same io name (zu.a_b and zu_a.b -> zu_a_b): no renaming keeps them
+        # apart, strip_blackboxes has to refuse
+        drv = [n for n, t, _ in parent["nodes"] if t in G.ALL_GATES + ["input"]]
+        parent["bbs"]["zu"] = {"name": "cx", "inputs": ["a_b"], "outputs": []}
+        parent["bbs"]["zu_a"] = {"name": "cy", "inputs": ["b"], "outputs": []}
+        parent["nodes"] += [["zu.a_b", "bb_input", False], ["zu_a.b", "bb_input", False]]
+        parent["edges"] += [[rng.choice(drv), "zu.a_b"], [rng.choice(drv), "zu_a.b"]]
+        ops = [o for o in ops if o["op"] != "strip_blackboxes"] + [{"op": "strip_blackboxes", "ignore_pins": None}]
     return {"parent": parent, "children": children, "ops": ops, "via": rng.choice(["graph", "api"]), "probe_rejected": rng.random() < 0.25}
 
 
@@ -236,6 +245,13 @@ def check(case, ctx):
                 ign_arg = {"tuple": tuple, "set": set, "frozenset": frozenset}[op["ign_rep"]](ign)
                 ctx.count(f"strip_ignore_pins_as:{op['ign_rep']}")
             ok, r = ctx.call(cg.tx.strip_blackboxes, c, ign_arg)
+            dup = sorted({v for v in ren.values() if list(ren.values()).count(v) > 1})
+            if dup:
+                ctx.count("strip_with_colliding_flattened_names")
+                if ok:
+                    ctx.violation("strip_merged_colliding_pins", f"{what}: pins {sorted(k_ for k_, v in ren.items() if v in dup)} all become {dup}; the call returned a circuit in which they are one node")
+                    return
+                clash = clash or dup
             if not ok:
                 if isinstance(r, ValueError) and clash:
                     ctx.reject("strip_name_clash")
@@ -432,5 +448,5 @@ def check(case, ctx):
 
 
 def gates(counters, table, tier):
-    need = ["conflicting_connections_probe", "swapped_direction_fill_probe", "strip_result_edit_probe", "rejected_call_probe", "strip_str_ignore_with_substring_pins", "child_with_feedthrough_port", "instance_name_is_prefix_of_another", "op:add_subcircuit", "op:add_blackbox", "op:fill_blackbox", "op:strip_blackboxes", "partial_connections", "child_with_nested_blackbox", "fill_after_other_calls", "fill_immediately", "same_child_instantiated_twice", "strip_with_ignore", "strip_with_blackboxes", "functional_checks", "add_subcircuit_strip_io_false", "strip_ignore_pins_as:tuple", "strip_ignore_pins_as:set", "net_named_like_an_ignored_pin", "output_onto_constant_probe:x", "output_onto_constant_probe:0", "child_input_fed_from_own_output"]
+    need = ["conflicting_connections_probe", "swapped_direction_fill_probe", "strip_result_edit_probe", "rejected_call_probe", "strip_str_ignore_with_substring_pins", "child_with_feedthrough_port", "instance_name_is_prefix_of_another", "op:add_subcircuit", "op:add_blackbox", "op:fill_blackbox", "op:strip_blackboxes", "partial_connections", "child_with_nested_blackbox", "fill_after_other_calls", "fill_immediately", "same_child_instantiated_twice", "strip_with_ignore", "strip_with_blackboxes", "functional_checks", "add_subcircuit_strip_io_false", "strip_ignore_pins_as:tuple", "strip_ignore_pins_as:set", "net_named_like_an_ignored_pin", "output_onto_constant_probe:x", "output_onto_constant_probe:0", "child_input_fed_from_own_output", "strip_with_colliding_flattened_names"]
     return [f"{k} seen {counters.get(k, 0)} times" for k in need if counters.get(k, 0) < 5]
